@@ -575,7 +575,9 @@ func (e *Env) deref(tv TV) TV {
 			return tv
 		}
 		if p.Obj == nil {
-			bad("dereference of nil pointer in contract")
+			// definitely nil here (e.g. an error return): the clause must not depend on the value, so it is unconstrained
+			tv = TV{V: e.Fx.SymValue(e.state().Clone(), pt.Elem(), "nilderef", 0), T: pt.Elem()}
+			continue
 		}
 		tv = TV{V: e.Fx.Load(e.state(), p, pt.Elem()), T: pt.Elem()}
 	}
@@ -1068,6 +1070,21 @@ func (e *Env) call(n *ast.CallExpr) TV {
 			if e.Skol != nil {
 				e.Skol[key] = sk
 			}
+		}
+		if (e.noQuant > 0 || e.Assume) && lo.IsConst() && hi.IsConst() && int64(hi.Val)-int64(lo.Val) <= 64 {
+			// small constant range used as a hypothesis: expanded exactly into a conjunction
+			saved, had := e.Vars[iv]
+			var cs []*Term
+			for c := int64(lo.Val); c < int64(hi.Val); c++ {
+				e.Vars[iv] = TV{V: sym.Scalar{T: BVC(64, uint64(c))}, T: types.Typ[types.Int]}
+				cs = append(cs, e.boolT(n.Args[3]))
+			}
+			if had {
+				e.Vars[iv] = saved
+			} else {
+				delete(e.Vars, iv)
+			}
+			return TV{V: sym.Scalar{T: And(cs...)}, T: types.Typ[types.Bool]}
 		}
 		if e.noQuant > 0 {
 			bad("quantifier in a negative position (left of implies / under !)")
